@@ -75,7 +75,13 @@ SCHEMA = {
         'properties': 'list[ref:Variable]', 'operators': 'list[ref:Operator]', 'enums': 'list[ref:Enum]',
         'parent': 'estr|ref:Namespace',
     },
-    'Namespace': {'name': 'str', 'content': 'list[any]', 'parent': 'estr|ref:Namespace'},
+    'Namespace': {'name': 'str', 'parent': 'estr|ref:Namespace',
+                  'content': 'list[ref:Class|ref:GlobalFunction|ref:Enum|ref:Include|ref:ForwardDeclaration|'
+                             'ref:TypedefTemplateInstantiation|ref:Variable|ref:Namespace]'},
+    'Class.Members': {'ctors': 'list[ref:Constructor]', 'methods': 'list[ref:Method]', 'static_methods': 'list[ref:StaticMethod]',
+                      'dunder_methods': 'list[ref:DunderMethod]', 'properties': 'list[ref:Variable]',
+                      'operators': 'list[ref:Operator]', 'enums': 'list[ref:Enum]'},
+    'Template.TypenameAndInstantiations': {'typename': 'str', 'instantiations': 'list[ref:Typename]'},
     # ---------------------------------------------------------------- instantiated nodes
     'InstantiatedClass': {'original': 'ref:Class', 'instantiations': 'list[ref:Typename]'},
     'InstantiatedMethod': {'original': 'ref:Method', 'instantiations': 'list[ref:Typename]'},
